@@ -431,6 +431,40 @@ func ruleC18_4(c *Ctx, r *Rep) {
 			}
 		}
 	}
+	// ... and "no match" is said only for a reason: exhausted count, another operation, an injected parameter missing
+	// or different (or, soundly, more injected parameters than the call carries). Any other early `return false`
+	// (an off-by-one size pre-check, a fast reject keyed on something else) makes matching calls pass unfailed.
+	for i, ret := range returnsOf(fn) {
+		cst, isC := retResult(ret, 0).(*ssa.Const)
+		if !isC || cst.Value == nil || cst.Value.String() != "false" {
+			continue
+		}
+		cs := edgeConds(ret.Block())
+		reason := ""
+		for _, cd := range cs {
+			nc := normCond(cd.V, cd.Pol)
+			switch x := nc.V.(type) {
+			case *ssa.BinOp:
+				z, isZ := constInt(x.Y)
+				sx, sy := sources(x.X), sources(x.Y)
+				switch {
+				case isZ && z == 0 && atomicCountRead(x.X, 0) && (x.Op == token.LEQ && nc.Pol || x.Op == token.GTR && !nc.Pol || x.Op == token.LSS && nc.Pol):
+					reason = "count"
+				case sx["field:Operation"] && sy["param:op"] && (x.Op == token.NEQ && nc.Pol || x.Op == token.EQL && !nc.Pol):
+					reason = "operation"
+				case ((sx["param:params"] && sy["field:Parameters"]) || (sy["param:params"] && sx["field:Parameters"])) && !isLenCall(x.X) && !isLenCall(x.Y) && (x.Op == token.NEQ && nc.Pol || x.Op == token.EQL && !nc.Pol):
+					reason = "different"
+				case isLenCall(x.X) && isLenCall(x.Y) && sx["field:Parameters"] && !sx["param:params"] && sy["param:params"] && (x.Op == token.GTR && nc.Pol || x.Op == token.LEQ && !nc.Pol):
+					reason = "more injected parameters than the call has"
+				}
+			case *ssa.Extract:
+				if lk, ok := x.Tuple.(*ssa.Lookup); ok && x.Index == 1 && lk.CommaOk && !nc.Pol && sources(lk.X)["param:params"] && sources(lk.Index)["field:Parameters"] {
+					reason = "missing"
+				}
+			}
+		}
+		r.Check("C18.4", fmt.Sprintf("C18.4:no-match-only-for-a-reason#%d", i+1), ret.Pos(), reason != "", reason, "match says no on a path that has established neither an exhausted count, nor another operation, nor a missing or different injected parameter (e.g. a size pre-check that also rejects calls with exactly the injected parameters): matching calls are not failed and the fault is never used up")
+	}
 	r.Check("C18.4", "C18.4:subset-of-parameters", fn.Pos(), missing && different && okLoop, "every injected parameter must be present with an equal value",
 		fmt.Sprintf("match does not require every injected parameter to be present (%v) and equal (%v), over the whole parameter set (%v): calls that do not match are failed", missing, different, okLoop))
 }
@@ -1216,4 +1250,13 @@ func takesMutex(fn *ssa.Function, suffix string) bool {
 		}
 	}
 	return false
+}
+
+func isLenCall(v ssa.Value) bool {
+	call, ok := v.(*ssa.Call)
+	if !ok {
+		return false
+	}
+	bi, ok := call.Call.Value.(*ssa.Builtin)
+	return ok && bi.Name() == "len"
 }
